@@ -168,7 +168,7 @@ std::string cfg_class(const GenCfg & c)
 {
   if (c.cat == 2) return "bkg";
   std::string s = "dbd-m" + std::to_string(c.mode) + (c.level > 0 ? "-exc" : "-gs");
-  if (c.emin_keV >= 0 || c.emax_keV >= 0) s += "-win";
+  if (c.has_window()) s += (c.emin_keV < -1 || c.emax_keV < -1) ? "-negwin" : "-win";
   return s;
 }
 
@@ -224,7 +224,7 @@ Outcome run_gen(const Plan & plan, const RunCtx & ctx)
         if (registered != 0) { I.cfg.mdl = registered; c2.mdl = 0; }
         apply_cfg(*I.gen, c2, user_op(c2.mdl));
         // make the object's public configuration exactly the one the canonical instance gets
-        if (I.cfg.cat == 2 || (I.cfg.emin_keV < 0 && I.cfg.emax_keV < 0)) I.gen->set_decay_dbd_esum_range(NAN, NAN);
+        if (I.cfg.cat == 2 || !I.cfg.has_window()) I.gen->set_decay_dbd_esum_range(NAN, NAN);
         if (I.cfg.cat == 2) { I.gen->set_decay_dbd_level(bxdecay0::decay0_generator::DBD_LEVEL_INVALID); I.gen->set_decay_dbd_mode(bxdecay0::DBDMODE_UNDEF); }
         I.has_cfg = I.gen->get_operations().size() == (I.cfg.mdl ? 1u : 0u);
       } catch (std::exception &) { out.ctr["cfg_rejected"]++; }
@@ -246,7 +246,7 @@ Outcome run_gen(const Plan & plan, const RunCtx & ctx)
       I.last = ok ? "init" : (faulted ? "init-faulted" : "init-refused");
       if (r.over_budget) {
         // with an energy window the cost is 1/(kept fraction) by the user's choice: not a liveness bug
-        bool windowed = I.cfg.emin_keV >= 0 || I.cfg.emax_keV >= 0;
+        bool windowed = I.cfg.has_window();
         if (windowed) out.ctr["window_too_narrow_skipped"]++;
         else if (check04)
           out.fail("C04", "unbounded-work", "init-over-budget cfg=" + cfg_class(I.cfg) + " nuclide=" + I.cfg.nuc,
@@ -457,7 +457,7 @@ GenCfg variant_of(Rng & r, const GenCfg & c0)
     u64 d = r.below(10);
     if (e && mode_supports_window(c.mode) && d < 6) {
       c.emin_keV = c.emax_keV = -1;
-      if (c0.emin_keV < 0 && c0.emax_keV < 0) pick_window(r, *e, c);      // windowed twin of a full-range one
+      if (!c0.has_window()) pick_window(r, *e, c);      // windowed twin of a full-range one
       else if (r.chance(0.5)) pick_window(r, *e, c);                       // another window (else: full range)
     } else if (d < 8) {
       std::vector<const DbdEntry *> alt;
@@ -549,7 +549,7 @@ Plan gen_hist(u64 seed, u64 idx, const RunCtx & ctx)
         if (k == 0) bad.level = 15;
         else if (k == 1) bad.mode = (int)r.pick(std::vector<i64>{4, 5, 8, 13, 15, 16, 19, 7, 3});
         else { bad.emin_keV = 3000; bad.emax_keV = 1000; }
-        if (mode_supports_window(bad.mode) && bad.emin_keV < 0 && bad.emax_keV < 0) { bad.emin_keV = r.range(100, 900); bad.emax_keV = bad.emin_keV + r.range(300, 1500); }
+        if (mode_supports_window(bad.mode) && !bad.has_window()) { bad.emin_keV = r.range(100, 900); bad.emax_keV = bad.emin_keV + r.range(300, 1500); }
       } else bad.nuc = "Xx999";
       Op b = op_cfg(g, bad); b.k = "recfg"; p.ops.push_back(b);
       Op in; in.k = "init"; in.a = {g, (i64)r.below(1000), -1, -1}; p.ops.push_back(in);
@@ -604,6 +604,12 @@ Plan gen_sweep(u64 seed, u64 idx, const RunCtx & ctx)
     const DbdEntry & e = cat[pos - names.size()];
     c.cat = 1; c.nuc = e.nuc; c.level = e.level; c.mode = e.mode;
     if (mode_supports_window(e.mode) && r.chance(0.25)) pick_window(r, e, c);
+    else if (mode_supports_window(e.mode) && e.qng_calls < 1500 && r.chance(0.12)) {
+      // unusual but min < max: a negative lower bound, or both bounds negative. The library either refuses it
+      // or produces well-formed events (the CLI refuses negative bounds; the API takes any doubles)
+      if (r.chance(0.5)) { c.emin_keV = -r.range(200, 3000); c.emax_keV = r.range(500, 3000); }
+      else { c.emin_keV = -r.range(1500, 3000); c.emax_keV = -r.range(100, 1400); }
+    }
   }
   p.hdr["faults"] = "1";
   p.ops.push_back(op_cfg(0, c));
